@@ -6,7 +6,8 @@ Require Import Grist.Model.MetaCascade Grist.Proofs.MetaCascade_base Grist.Proof
   Grist.Proofs.MetaCascade_rm Grist.Proofs.MetaCascade_rm2 Grist.Proofs.MetaCascade_rm3
   Grist.Proofs.MetaCascade_rm4 Grist.Proofs.MetaCascade_rm5
   Grist.Proofs.MetaCascade_add Grist.Proofs.MetaCascade_add2 Grist.Proofs.MetaCascade_add3
-  Grist.Proofs.MetaCascade_add4 Grist.Proofs.MetaCascade_add5
+  Grist.Proofs.MetaCascade_add4 Grist.Proofs.MetaCascade_add5 Grist.Proofs.MetaCascade_add6
+  Grist.Proofs.MetaCascade_add7
   Grist.Proofs.MetaCascade_upd Grist.Proofs.MetaCascade_upd2 Grist.Proofs.MetaCascade_upd3.
 Open Scope Z_scope.
 
@@ -17,9 +18,9 @@ Proof.
   destruct (existsb _ (m_fields m)); [discriminate|]. inversion H; subst. apply rm_fields_inv. exact HI.
 Qed.
 
-Theorem step_inv : forall o m m', Inv m -> step o m = Ok m' -> Inv m'.
+Theorem step_inv : forall o m m', regroups_op o = false -> Inv m -> step o m = Ok m' -> Inv m'.
 Proof.
-  intros o m m' HI H. destruct o; simpl in H.
+  intros o m m' Hsafe HI H. destruct o; simpl in H; try discriminate Hsafe.
   - destruct (add_table name kinds pview m) as [[m1 t]| |] eqn:E; simpl in H; try discriminate.
     inversion H; subst. apply (add_table_inv _ _ _ _ _ _ HI E).
   - apply (remove_tables_inv _ _ _ HI H).
@@ -41,16 +42,20 @@ Proof.
   - apply (set_rules_inv [] _ _ _ _ _ HI H).
   - apply (set_custom_inv [] _ _ _ _ HI H).
   - apply (rename_table_inv _ _ _ _ HI H).
+  - apply (create_summary_inv _ _ _ _ _ _ _ _ HI H).
   - inversion H; subst. exact HI.
   - discriminate.
 Qed.
 
-Theorem steps_inv : forall os m m', Inv m -> steps os m = Ok m' -> Inv m'.
+Definition no_regroups (os : list op) : bool := forallb (fun o => negb (regroups_op o)) os.
+
+Theorem steps_inv : forall os m m', no_regroups os = true -> Inv m -> steps os m = Ok m' -> Inv m'.
 Proof.
-  induction os as [|o t IH]; intros m m' HI H; simpl in H.
+  induction os as [|o t IH]; intros m m' Hs HI H; simpl in H.
   - inversion H; subst. exact HI.
-  - destruct (step o m) as [m1| |] eqn:E; simpl in H; try discriminate.
-    apply (IH m1 m'); [apply (step_inv o m m1 HI E) | exact H].
+  - simpl in Hs. apply andb_true_iff in Hs. destruct Hs as [Hs1 Hs2]. apply negb_true_iff in Hs1.
+    destruct (step o m) as [m1| |] eqn:E; simpl in H; try discriminate.
+    apply (IH m1 m'); [exact Hs2 | apply (step_inv o m m1 Hs1 HI E) | exact H].
 Qed.
 
 Lemma auto_round_inv : forall m m', Inv m -> auto_round m = Ok m' -> Inv m'.
@@ -84,33 +89,41 @@ Proof.
 Qed.
 
 (* a whole bundle *)
-Theorem run_bundle_core : forall os m m', refs_core m = true -> run_bundle os m = Ok m' -> RefsResolve m' = true.
+Theorem run_bundle_core : forall os m m',
+  no_regroups os = true -> refs_core m = true -> run_bundle os m = Ok m' -> RefsResolve m' = true.
 Proof.
-  intros os m m' HR H. apply refs_core_iff in HR. unfold run_bundle in H.
+  intros os m m' Hs HR H. apply refs_core_iff in HR. unfold run_bundle in H.
   destruct (steps os m) as [m1| |] eqn:E; unfold bind in H; try discriminate.
-  pose proof (steps_inv os m m1 HR E) as HI1.
+  pose proof (steps_inv os m m1 Hs HR E) as HI1.
   apply RefsResolve_iff. apply (auto_fix_inv _ m1 m' HI1 H).
 Qed.
 
 Theorem run_bundle_preserves : forall os m m',
-  RefsResolve m = true -> run_bundle os m = Ok m' -> RefsResolve m' = true.
+  no_regroups os = true -> RefsResolve m = true -> run_bundle os m = Ok m' -> RefsResolve m' = true.
 Proof.
-  intros os m m' HR H. unfold RefsResolve in HR. apply andb_true_iff in HR. destruct HR as [HR _].
-  apply (run_bundle_core os m m' HR H).
+  intros os m m' Hs HR H. unfold RefsResolve in HR. apply andb_true_iff in HR. destruct HR as [HR _].
+  apply (run_bundle_core os m m' Hs HR H).
 Qed.
 
 (* single actions keep the core part (helper columns may be unused until the end of the bundle) *)
-Theorem step_preserves_core : forall o m m', refs_core m = true -> step o m = Ok m' -> refs_core m' = true.
-Proof. intros o m m' HR H. apply refs_core_iff. apply refs_core_iff in HR. apply (step_inv o m m' HR H). Qed.
+Theorem step_preserves_core : forall o m m',
+  regroups_op o = false -> refs_core m = true -> step o m = Ok m' -> refs_core m' = true.
+Proof. intros o m m' Hs HR H. apply refs_core_iff. apply refs_core_iff in HR. apply (step_inv o m m' Hs HR H). Qed.
+
+(* the auto-removal loop alone: from any state satisfying the core part *)
+Theorem auto_fix_resolves : forall fuel m m', refs_core m = true -> auto_fix fuel m = Ok m' -> RefsResolve m' = true.
+Proof.
+  intros fuel m m' HR H. apply refs_core_iff in HR. apply RefsResolve_iff. apply (auto_fix_inv fuel m m' HR H).
+Qed.
 
 (* states reachable from a new document by bundles of modelled actions *)
 Inductive reachable : meta -> Prop :=
 | reach_init : reachable empty_meta
-| reach_bundle : forall m os m', reachable m -> run_bundle os m = Ok m' -> reachable m'.
+| reach_bundle : forall m os m', reachable m -> no_regroups os = true -> run_bundle os m = Ok m' -> reachable m'.
 
 Theorem reachable_resolve : forall m, reachable m -> RefsResolve m = true.
 Proof.
-  intros m H. induction H as [|m os m' Hr IH Hb].
+  intros m H. induction H as [|m os m' Hr IH Hs Hb].
   - vm_compute. reflexivity.
-  - apply (run_bundle_preserves os m m' IH Hb).
+  - apply (run_bundle_preserves os m m' Hs IH Hb).
 Qed.
